@@ -14,19 +14,19 @@ open Gzx Gzx.QRDec Gzx.QRComp Gzx.QREnc Gzx.Properties.C01
 /-- the modules of a ByteMatrix as the decoder's matrix (1 = dark) -/
 def modulesOf (m : ByteMatrix) : Matrix := matrixOf (m.bytes.map (fun r => r.map (· == 1)))
 
-/-- `mirror_symbol_roundtrip`: for every version 1..10 (1..40 given `FuncOK v`), level, forced mask 0..7 or
+/-- `mirror_symbol_roundtrip`: for every version 1..40, level, forced mask 0..7 or
     automatic choice, and every payload that fits: the matrix the mirror of the Go encoder builds decodes (decoder
     model with the C04 Reed-Solomon decoder, first attempt, not mirrored) to what the bit-stream parser makes of the
     payload, with the level, the version and exactly the data codewords that were written. -/
-theorem mirror_symbol_roundtrip_partial {K : Kernels} (hK : KernelsOK K) (T : Tables) (hT : TablesConform T) (hint : ECI.Hint)
-    (v : Nat) (h1 : 1 ≤ v) (h40 : v ≤ 40) (hf : FuncOK v) (ec : QRRef.EC)
+theorem mirror_symbol_roundtrip {K : Kernels} (hK : KernelsOK K) (T : Tables) (hT : TablesConform T) (hint : ECI.Hint)
+    (v : Nat) (h1 : 1 ≤ v) (h40 : v ≤ 40) (ec : QRRef.EC)
     (forced : Option Nat) (hforced : ∀ k, forced = some k → k < 8) (payload : List Bool)
     (hfit : payload.length ≤ 8 * QRRef.dataCodewords v ec) (parsed : Parsed)
     (hparse : ∀ tail, Terminated tail → parseStream T.eci (payload ++ tail) v hint = .ok parsed) :
     ∃ mask M, backHalf K v ec forced payload = .ok (mask, M) ∧
       decode T rsQR hint (modulesOf M) =
         .ok ⟨parsed, toDecEC ec, v, QRRef.terminate (QRRef.dataCodewords v ec) payload, false⟩ := by
-  refine ⟨_, _, backHalf_eq_ref hK v h1 h40 hf ec forced hforced payload hfit, ?_⟩
+  refine ⟨_, _, backHalf_eq_ref hK v h1 h40 (funcOK_all v h1 h40) ec forced hforced payload hfit, ?_⟩
   unfold modulesOf
   rw [Gzx.Properties.C07Mirror.refByteMatrix_modules]
   have hm : forced.getD (QRRef.chooseMask v ec (refCodewords v ec payload)) < 8 := by
@@ -50,17 +50,6 @@ theorem mirror_symbol_roundtrip_partial {K : Kernels} (hK : KernelsOK K) (T : Ta
           · intro k' hk'; exact hl k' (List.mem_cons_of_mem _ hk')
       exact this _ _ (by decide) (fun k hk => List.mem_range.mp hk)
   exact qr_roundtrip_bits T hT hint v h1 h40 ec _ hm payload hfit parsed hparse
-
-/-- versions 1..10: no per-version hypothesis -/
-theorem mirror_symbol_roundtrip {K : Kernels} (hK : KernelsOK K) (T : Tables) (hT : TablesConform T) (hint : ECI.Hint)
-    (v : Nat) (h1 : 1 ≤ v) (h10 : v ≤ 10) (ec : QRRef.EC)
-    (forced : Option Nat) (hforced : ∀ k, forced = some k → k < 8) (payload : List Bool)
-    (hfit : payload.length ≤ 8 * QRRef.dataCodewords v ec) (parsed : Parsed)
-    (hparse : ∀ tail, Terminated tail → parseStream T.eci (payload ++ tail) v hint = .ok parsed) :
-    ∃ mask M, backHalf K v ec forced payload = .ok (mask, M) ∧
-      decode T rsQR hint (modulesOf M) =
-        .ok ⟨parsed, toDecEC ec, v, QRRef.terminate (QRRef.dataCodewords v ec) payload, false⟩ :=
-  mirror_symbol_roundtrip_partial hK T hT hint v h1 (by omega) (funcOK_small v h1 h10) ec forced hforced payload hfit parsed hparse
 
 example : ([] : List Bool).length ≤ 8 * QRRef.dataCodewords 1 .L := by decide
 
